@@ -104,6 +104,23 @@ func init() {
 // aNative converts a value of one of the ten stackage-family Go types of the
 // harness with plain Go conversions: kind 1 = Stack, 2 = Condition, 0 = other.
 func aNative(v any) (s stk.Stack, c stk.Condition, a string, kind int) {
+	if b, d := unchain(v); d >= 2 {
+		form := "pp"
+		if d >= 3 {
+			form = fmt.Sprintf("p%d", d)
+		}
+		switch x := b.(type) {
+		case stk.Stack:
+			return x, c, form, 1
+		case aStack:
+			return stk.Stack(x), c, form + "a", 1
+		case stk.Condition:
+			return s, x, form, 2
+		case aCond:
+			return s, stk.Condition(x), form + "a", 2
+		}
+		return s, c, "", 0
+	}
 	switch x := v.(type) {
 	case stk.Stack:
 		return x, c, "", 1
@@ -272,6 +289,12 @@ func (n *Node) retype(s stk.Stack) any {
 	case "aptrstr":
 		a := sStack(s)
 		return &a
+	}
+	if d, al, ok := ptrKind(n.A); ok {
+		if al {
+			return ptrChain(aStack(s), d)
+		}
+		return ptrChain(s, d)
 	}
 	return s
 }
@@ -633,6 +656,9 @@ func aliasRepointProbe() (problem string) {
 // nativeOf: the native Stack handle behind a nested Stack however it is typed
 // (type switches over the harness' own alias types: not the converters under test)
 func nativeOf(v any) (stk.Stack, bool) {
+	if b, d := unchain(v); d >= 2 {
+		v = b
+	}
 	switch x := v.(type) {
 	case stk.Stack:
 		return x, x.IsInit()
@@ -724,6 +750,14 @@ func minInt(a, b int) int {
 // generators
 
 var aliasKinds = []string{"", "aval", "aptr", "avalstr", "aptrstr"}
+
+// randAliasKind: the five basic typings, sometimes a chain of 3..6 pointers
+func randAliasKind(r *Rng) string {
+	if r.Pct(12) {
+		return []string{"p3a", "p4a", "p5a", "p6a", "p5", "p6"}[r.Intn(6)]
+	}
+	return aliasKinds[r.Intn(len(aliasKinds))]
+}
 
 func aClone(n *Node) *Node {
 	if n == nil {
@@ -958,12 +992,12 @@ func aliasCase(r *Rng, skel *Node, insts []*Node) AliasInput {
 	for k, t := range insts {
 		ai := AliasInst{Tree: t}
 		if k > 0 {
-			ai.Arg = aliasKinds[r.Intn(len(aliasKinds))]
+			ai.Arg = randAliasKind(r)
 		}
 		for _, d := range dests {
 			dd := aClone(d)
 			if k > 0 && (dd.T == "stack" || dd.T == "cond") {
-				dd.A = aliasKinds[r.Intn(len(aliasKinds))]
+				dd.A = randAliasKind(r)
 			}
 			ai.Dests = append(ai.Dests, dd)
 		}
@@ -1057,7 +1091,7 @@ func genAlias(ctx *Ctx, emit func(any, string)) {
 		k := 2 + r.Intn(3)
 		insts := []*Node{aInstantiate(sk, func(int, *Node) string { return "" })}
 		for j := 1; j < k; j++ {
-			insts = append(insts, aInstantiate(sk, func(int, *Node) string { return aliasKinds[r.Intn(len(aliasKinds))] }))
+			insts = append(insts, aInstantiate(sk, func(int, *Node) string { return randAliasKind(r) }))
 		}
 		emit(aliasCase(r, sk, insts), "random")
 	}
